@@ -40,7 +40,7 @@ BOUNDS = {
               "alphabet": "first key, last key, colliding non-key, empty-bucket non-key"},
     "thorough": {"key_pools": "as C11 thorough", "moduli": MODS_T, "big_moduli": BIGMODS_Q, "inits": INITS,
                  "designed_batch_lists": 12, "split_structures": STRUCT_B_T, "max_samples": 4,
-                 "max_samples_first_4_structures": 5, "max_batches": 3,
+                 "max_samples_first_2_structures": 5, "max_batches": 3,
                  "alphabet": "first, middle, last key, colliding non-key, empty-bucket non-key",
                  "random": "40000 random structures x random batch lists (<= 6 batches of <= 12 samples)"},
 }
@@ -125,7 +125,7 @@ def cases(tier, seed):
     structs = STRUCT_B_Q if quick else STRUCT_B_T
     for si, (dt, keys, mod) in enumerate(structs):
         al = alphabet(dt, keys, mod, not quick)
-        maxlen = 3 if quick else (5 if si < 4 else 4)
+        maxlen = 3 if quick else (5 if si < 2 else 4)
         for kind in INITS:
             init = init_value(kind, len(keys))
             for L in range(0, maxlen + 1):
@@ -253,18 +253,18 @@ def _violations(case):
         got = a.ravel().tolist()
         if a.shape != (len(keys),) or got != [exp[k] for k in keys]:
             yield {"msg": f"{c2}: counter[{keys}] expected {[exp[k] for k in keys]}, got {got}",
-                   "sig": f"wrong:totals:getv:{ik}:{cl}"}
+                   "sig": f"wrong:totals:{ik}:{cl}"}
     except Exception as e:
         yield {"msg": f"{c2}: counter[{keys}] expected {[exp[k] for k in keys]}, raised {type(e).__name__}: {str(e)[:120]}",
-               "sig": f"raised:{type(e).__name__}:getv:{ik}:{cl}"}
+               "sig": f"raised:{type(e).__name__}:readback:{ik}:{cl}"}
     for k in keys:
         try:
             got = np.asarray(c[int(k)]).ravel().tolist()
             if got != [exp[k]]:
-                yield {"msg": f"{c2}: counter[{k}] expected {exp[k]}, got {got}", "sig": f"wrong:totals:get1:{ik}:{cl}"}
+                yield {"msg": f"{c2}: counter[{k}] expected {exp[k]}, got {got}", "sig": f"wrong:totals:{ik}:{cl}"}
         except Exception as e:
             yield {"msg": f"{c2}: counter[{k}] expected {exp[k]}, raised {type(e).__name__}: {str(e)[:120]}",
-                   "sig": f"raised:{type(e).__name__}:get1:{ik}:{cl}"}
+                   "sig": f"raised:{type(e).__name__}:readback:{ik}:{cl}"}
 
 
 def check(case):
